@@ -21,12 +21,9 @@ MSG_EVENT = {
 TIMER_EVENT = {'TConnectRetry': 'EvConnectRetryExpires', 'THold': 'EvHoldExpires',
                'TKeepAlive': 'EvKeepaliveExpires', 'TIdleHold': 'EvIdleHoldExpires'}
 KNOWN = {
-    (4, 'EvManualStop'): 'C01-manualstop-no-cease', (5, 'EvManualStop'): 'C01-manualstop-no-cease',
     (4, 'EvNotifOther'): 'C01-opensent-notification-silent-close',
-    (4, 'EvKeepaliveMsg'): 'C01-opensent-keepalive-ignored',
     (6, '(EvOpenErr 1)'): 'C01-established-open-error-code', (6, '(EvOpenErr 2)'): 'C01-established-open-error-code',
     (6, '(EvOpenErr 6)'): 'C01-established-open-error-code',
-    (6, 'EvNotifVersion'): 'C01-established-notif-version-ignored',
 }
 RSTATE = {1: 'RIdle', 2: 'RConnect', 3: 'RActive', 4: 'ROpenSent', 5: 'ROpenConfirm', 6: 'REstablished'}
 
